@@ -150,6 +150,17 @@ Fixpoint map2 {A B C} (f : A -> B -> C) (a : list A) (b : list B) : list C :=
   | _, _ => []
   end.
 
+(* terms[np.cumsum(hit(factors)) > 0] = v : from the first factor satisfying `hit` on, the entry is v
+   (NonnegMean.py: a zero factor is absorbing even after the float product has overflowed; in Kaplan-Markov, where
+   the p-value itself is accumulated, an infinite factor is).  The running product itself is not changed. *)
+Definition xis_zero (a : Xq) : bool := match a with Fin q => Qeq_bool q 0 | _ => false end.
+Definition xis_inf (a : Xq) : bool := match a with PInf | NInf => true | _ => false end.
+Fixpoint absorb (hit : Xq -> bool) (v : Xq) (seen : bool) (fs terms : list Xq) : list Xq :=
+  match fs, terms with
+  | f :: fr, tm :: tr => let seen' := seen || hit f in (if seen' then v else tm) :: absorb hit v seen' fr tr
+  | _, _ => []
+  end.
+
 (* (x*eta/m + (u-x)*(u-eta)/(u-m))/u evaluated with numpy's division rules *)
 Definition alpha_factor (u x eta m : Q) : Xq :=
   xdiv (xadd (xdiv (Fin (x * eta)) (Fin m)) (xdiv (Fin ((u - x) * (u - eta))) (Fin (u - m)))) (Fin u).
@@ -181,14 +192,16 @@ Definition finish_mart (N : option Z) (t u : Q) (xs ms : list Q) (raw : list Xq)
 Definition alpha_mart (e : estim_kind) (N : option Z) (t u : Q) (xs : list Q) : Xq * list Xq :=
   let ms := mu_list N t xs in
   let etas := map2 (fun est m => Qminb u (Qmaxb est m)) (run_estim e N t u xs) ms in
-  let raw := xcumprod (Fin 1) (map3 (alpha_factor u) xs etas ms) in
+  let fs := map3 (alpha_factor u) xs etas ms in
+  let raw := absorb xis_zero (Fin 0) false fs (xcumprod (Fin 1) fs) in
   finish_mart N t u xs ms raw.
 
 (* betting_mart L207-227 *)
 Definition betting_mart (b : bet_kind) (N : option Z) (t u : Q) (xs : list Q) : Xq * list Xq :=
   let ms := mu_list N t xs in
   let lams := run_bet b N t u xs in
-  let raw := xcumprod (Fin 1) (map3 betting_factor xs lams ms) in
+  let fs := map3 betting_factor xs lams ms in
+  let raw := absorb xis_zero (Fin 0) false fs (xcumprod (Fin 1) fs) in
   finish_mart N t u xs ms raw.
 
 Definition xlast (l : list Xq) : Xq := last l NaN.
@@ -201,20 +214,23 @@ Definition kk_override (xg m : Q) (term : Xq) : Xq :=
 Definition kaplan_kolmogorov (g : Q) (ro : bool) (N : Z) (t : Q) (xs : list Q) : Xq * list Xq :=
   let xg := map (fun x => x + g) xs in
   let ms := mu_list (Some N) (t + g) xg in
-  let raw := xcumprod (Fin 1) (map2 kk_ratio xg ms) in
+  let rs := map2 kk_ratio xg ms in
+  let raw := absorb xis_zero (Fin 0) false rs (xcumprod (Fin 1) rs) in
   let terms := map3 kk_override xg ms raw in
   let p0 := if ro then xinv (xmax_list terms) else xinv (xlast terms) in
   (xmin_py p0 (Fin 1), map (fun tm => xmin_np (xinv tm) (Fin 1)) terms).
 
 (* kaplan_markov L551-561: p_history = cumprod((t+g)/(x+g)) *)
 Definition kaplan_markov (g : Q) (ro : bool) (t : Q) (xs : list Q) : Xq * list Xq :=
-  let hist := xcumprod (Fin 1) (map (fun x => xdiv (Fin (t + g)) (Fin (x + g))) xs) in
+  let fs := map (fun x => xdiv (Fin (t + g)) (Fin (x + g))) xs in
+  let hist := absorb xis_inf PInf false fs (xcumprod (Fin 1) fs) in
   let p0 := if ro then xmin_list hist else xlast hist in
   (xmin_np (Fin 1) p0, map (fun h => xmin_np h (Fin 1)) hist).
 
 (* kaplan_wald L594-604: p_history = cumprod((1-g)*x/t + g); reported 1/p_history *)
 Definition kaplan_wald (g : Q) (ro : bool) (t : Q) (xs : list Q) : Xq * list Xq :=
-  let hist := xcumprod (Fin 1) (map (fun x => Fin ((1 - g) * x / t + g)) xs) in
+  let fs := map (fun x => Fin ((1 - g) * x / t + g)) xs in
+  let hist := absorb xis_zero (Fin 0) false fs (xcumprod (Fin 1) fs) in
   let p0 := if ro then xinv (xmax_list hist) else xinv (xlast hist) in
   (xmin_np (Fin 1) p0, map (fun h => xmin_np (xinv h) (Fin 1)) hist).
 
